@@ -36,7 +36,7 @@ if [ "$what" = gen ] || [ "$what" = all ]; then
   cd build/gen
   rm -f ../genrun
   timeout 600 coqc -Q ../../coq PGM ../../coq/Extract/ExtractGen.v >extract.log 2>&1 || { cat extract.log; exit 1; }
-  cp ../../ocaml/gen/gen_main.ml .
-  timeout 600 ocamlfind ocamlopt -w -a gen_model.mli gen_model.ml gen_main.ml -o ../genrun 2>build.log || { cat build.log; exit 1; }
+  cp ../../ocaml/io.ml ../../ocaml/main.ml ../../ocaml/gen/gen_main.ml .
+  timeout 600 ocamlfind ocamlopt -w -a model.mli model.ml io.ml gen_main.ml main.ml -o ../genrun 2>build.log || { cat build.log; exit 1; }
   cd ../..
 fi
